@@ -33,7 +33,7 @@ from cascade.low.core import DatasetId  # noqa: E402
 PROPERTY = "C07"
 LEVEL = "exploration"
 RULE = (
-    "cases = 2-3 hosts, 1-4 datasets (0-64 bytes, distinct contents and decoding-function strings) pre-stored on generated hosts, a "
+    "cases = 2-3 hosts, 1-4 datasets (1-64 bytes, distinct contents and decoding-function strings) pre-stored on generated hosts, a "
     "script of 1-8 commands (transfer A->B, redundant transfer of a dataset B already has, repeated transfers of one dataset, fetch to "
     "the controller, purge at the target at any moment, purge at the source once the transfer was stored), and a generated schedule: "
     "fate of every framed message (command, payload, Ack: deliver / drop / duplicate / hold), server turns (one real recv_loop "
